@@ -233,7 +233,13 @@ def judge(case, s, ctx, net, obs, msg, msg2, resp):
                 want_sizes=[len(x) for x in want_req])))
         r = c[1]
         want = [True, resp[0]] + ([True, resp[1]] if msg2 is not None else [])
-        if r != want:
+        if c[0] != 'ret':
+            # the link is healthy and every message is valid: an error to the
+            # handover client means a message was not carried
+            import errno as _errno
+            bad.append(('handover|client-error|%s:%s' % (
+                c[0], _errno.errorcode.get(c[1], c[1])), dict(client=repr(c))))
+        elif r != want:
             bad.append(('handover|responses|%s' % (
                 'first' if r[:2] != want[:2] else 'second'),
                 dict(got=[x if isinstance(x, bool) or x is None else len(x)
